@@ -167,6 +167,8 @@ type RecLayout struct {
 	Write  []WField    `json:"write"`
 	Parse  []PStmt     `json:"parse"`
 	Custom []string    `json:"custom"` // custom (Un)MarshalJSON present
+	SetType []SetAct   `json:"setType"` // body of setRecordType()
+	Ctor    []SetAct   `json:"ctor"`    // what New<T>() does besides setRecordType()
 	Rules  []Rule      `json:"rules"`
 }
 
@@ -686,6 +688,78 @@ func parseSide(p *pkgInfo, typ string) []PStmt {
 	return out
 }
 
+// SetAct is one effect of setRecordType() / New<T>().
+type SetAct struct {
+	Kind  string `json:"kind"` // lit nowIfZero setType opaque
+	Field string `json:"field,omitempty"`
+	Lit   string `json:"lit,omitempty"`
+	Src   string `json:"src,omitempty"`
+}
+
+func setActs(stmts []ast.Stmt, recv string) []SetAct {
+	var out []SetAct
+	for i, s := range stmts {
+		switch x := s.(type) {
+		case *ast.IfStmt:
+			if src(x.Cond) == recv+" == nil" {
+				continue
+			}
+			// if recv.F.IsZero() { recv.F = time.Now() }
+			if x.Init == nil && x.Else == nil && len(x.Body.List) == 1 {
+				if c, ok := x.Cond.(*ast.CallExpr); ok {
+					if sel, ok := c.Fun.(*ast.SelectorExpr); ok && sel.Sel.Name == "IsZero" {
+						if f, ok := selOn(sel.X, recv); ok && src(x.Body.List[0]) == recv+"."+f+" = time.Now()" {
+							out = append(out, SetAct{Kind: "nowIfZero", Field: f})
+							continue
+						}
+					}
+				}
+			}
+		case *ast.AssignStmt:
+			if len(x.Lhs) == 1 && len(x.Rhs) == 1 {
+				if x.Tok == token.DEFINE && i == 0 {
+					continue // x := T{} / &T{}
+				}
+				if f, ok := selOn(x.Lhs[0], recv); ok {
+					if bl, ok := x.Rhs[0].(*ast.BasicLit); ok && bl.Kind == token.STRING {
+						out = append(out, SetAct{Kind: "lit", Field: f, Lit: unquote(bl.Value)})
+						continue
+					}
+				}
+			}
+		case *ast.ExprStmt:
+			if m, args, ok := callOn(x.X, recv); ok && m == "setRecordType" && len(args) == 0 {
+				out = append(out, SetAct{Kind: "setType"})
+				continue
+			}
+		case *ast.ReturnStmt:
+			continue
+		}
+		out = append(out, SetAct{Kind: "opaque", Src: src(s)})
+	}
+	return out
+}
+
+func setTypeOf(p *pkgInfo, typ string) []SetAct {
+	d := p.methods[typ]["setRecordType"]
+	if d == nil {
+		return []SetAct{{Kind: "opaque", Src: "no setRecordType"}}
+	}
+	return setActs(d.Body.List, recvName(d))
+}
+
+func ctorOf(p *pkgInfo, typ string) []SetAct {
+	d := p.funcs["New"+typ]
+	if d == nil || len(d.Body.List) == 0 {
+		return []SetAct{{Kind: "opaque", Src: "no New" + typ}}
+	}
+	as, ok := d.Body.List[0].(*ast.AssignStmt)
+	if !ok || len(as.Lhs) != 1 {
+		return []SetAct{{Kind: "opaque", Src: src(d.Body)}}
+	}
+	return setActs(d.Body.List, src(as.Lhs[0]))
+}
+
 func recordTag(p *pkgInfo, typ string) string {
 	d := p.methods[typ]["setRecordType"]
 	if d == nil {
@@ -723,6 +797,8 @@ func main() {
 			}
 		}
 		r.Rules = rulesOf(p, rt.Go)
+		r.SetType = setTypeOf(p, rt.Go)
+		r.Ctor = ctorOf(p, rt.Go)
 		recs = append(recs, r)
 	}
 	all := &Tables{Records: recs}
